@@ -95,6 +95,9 @@ type world struct {
 	errs   []string
 	gos    []int
 	recvs  map[string]map[string]bool // class -> receiver expressions used, per function (consistency report)
+	fields map[*types.Var]int         // candidate guarded fields (map / slice fields of structs that carry a mutex)
+	fnames []string
+	uses   []string // report: field accesses with their base expression
 }
 
 type proc struct {
@@ -163,7 +166,9 @@ func load(dir string) *world {
 	conf := types.Config{Importer: importer.ForCompiler(fset, "source", nil), Error: func(error) {}, FakeImportC: true}
 	tp, _ := conf.Check(filepath.Base(dir), fset, files, info)
 	w := &world{fset: fset, info: info, files: files, tp: tp, decls: map[*types.Func]*ast.FuncDecl{},
-		memo: map[string]int{}, class: map[string]int{}, ext: map[string]bool{}, recvs: map[string]map[string]bool{}}
+		memo: map[string]int{}, class: map[string]int{}, ext: map[string]bool{}, recvs: map[string]map[string]bool{},
+		fields: map[*types.Var]int{}}
+	w.findFields()
 	for _, f := range files {
 		for _, d := range f.Decls {
 			if fd, ok := d.(*ast.FuncDecl); ok && fd.Body != nil {
@@ -215,6 +220,7 @@ type fctx struct {
 	depth   int    // nesting depth of the statement being translated (0 = top level of the body)
 	casRecv string // receiver name when the body starts with `if !recv.closed.CAS(false, true) { return ... }`
 	loops   int
+	fresh   map[types.Object]bool // locals initialised from a composite literal / new / make in this function
 }
 
 func bindKey(bind map[types.Object]int) string {
@@ -277,8 +283,138 @@ func (c *fctx) funcBody(body *ast.BlockStmt, recv string) *sk {
 			}
 		}
 	}
+	c.fresh = map[types.Object]bool{}
+	ast.Inspect(body, func(n ast.Node) bool {
+		if as, ok := n.(*ast.AssignStmt); ok && as.Tok == token.DEFINE && len(as.Lhs) == len(as.Rhs) {
+			for i, l := range as.Lhs {
+				if id, ok := l.(*ast.Ident); ok && isFreshExpr(as.Rhs[i]) {
+					if o := c.w.info.Defs[id]; o != nil {
+						c.fresh[o] = true
+					}
+				}
+			}
+		}
+		return true
+	})
 	b := c.block(body.List)
 	return seq(b, c.runDefers())
+}
+
+func isFreshExpr(e ast.Expr) bool {
+	switch x := e.(type) {
+	case *ast.CompositeLit:
+		return true
+	case *ast.UnaryExpr:
+		if x.Op == token.AND {
+			_, ok := x.X.(*ast.CompositeLit)
+			return ok
+		}
+	case *ast.CallExpr:
+		if id, ok := x.Fun.(*ast.Ident); ok && (id.Name == "new" || id.Name == "make") {
+			return true
+		}
+	}
+	return false
+}
+
+// findFields: map and slice fields of the package's struct types that also carry a mutex
+func (w *world) findFields() {
+	if w.tp == nil {
+		return
+	}
+	for _, n := range w.tp.Scope().Names() {
+		tn, ok := w.tp.Scope().Lookup(n).(*types.TypeName)
+		if !ok {
+			continue
+		}
+		st, ok := tn.Type().Underlying().(*types.Struct)
+		if !ok {
+			continue
+		}
+		hasMu := false
+		for i := 0; i < st.NumFields(); i++ {
+			if nt, ok := deref(st.Field(i).Type()).(*types.Named); ok && nt.Obj().Pkg() != nil && nt.Obj().Pkg().Path() == "sync" &&
+				(nt.Obj().Name() == "RWMutex" || nt.Obj().Name() == "Mutex") {
+				hasMu = true
+			}
+		}
+		if !hasMu {
+			continue
+		}
+		for i := 0; i < st.NumFields(); i++ {
+			f := st.Field(i)
+			switch f.Type().Underlying().(type) {
+			case *types.Map, *types.Slice:
+				w.fields[f] = len(w.fnames)
+				w.fnames = append(w.fnames, n+"."+f.Name())
+			}
+		}
+	}
+}
+
+// fieldOf: the candidate field a selector expression denotes (-1: none), unless reached through a fresh local
+func (c *fctx) fieldOf(e ast.Expr) int {
+	sel, ok := e.(*ast.SelectorExpr)
+	if !ok {
+		return -1
+	}
+	v, ok := c.w.info.Uses[sel.Sel].(*types.Var)
+	if !ok || !v.IsField() {
+		return -1
+	}
+	id, ok := c.w.fields[v]
+	if !ok {
+		return -1
+	}
+	// root identifier of the access path
+	var root ast.Expr = sel.X
+	for {
+		switch x := root.(type) {
+		case *ast.SelectorExpr:
+			root = x.X
+			continue
+		case *ast.IndexExpr:
+			root = x.X
+			continue
+		case *ast.ParenExpr:
+			root = x.X
+			continue
+		case *ast.StarExpr:
+			root = x.X
+			continue
+		}
+		break
+	}
+	if rid, ok := root.(*ast.Ident); ok {
+		if o := c.w.info.Uses[rid]; o != nil && c.fresh[o] {
+			return -1 // an object this function has just created: not shared yet
+		}
+	}
+	c.w.uses = append(c.w.uses, fmt.Sprintf("%s: %s.%s", c.name, c.w.src(sel.X), sel.Sel.Name))
+	return id
+}
+
+// lhs: the effects of evaluating an assignment target (a write to a guarded field, reads elsewhere)
+func (c *fctx) lhs(e ast.Expr) *sk {
+	switch x := e.(type) {
+	case *ast.IndexExpr:
+		if f := c.fieldOf(x.X); f >= 0 {
+			return seq(c.expr(x.Index), c.exprSkipping(x.X), &sk{k: "Use", m: "w", c: f})
+		}
+	case *ast.SelectorExpr:
+		if f := c.fieldOf(x); f >= 0 {
+			return seq(c.expr(x.X), &sk{k: "Use", m: "w", c: f})
+		}
+	}
+	return c.expr(e)
+}
+
+// exprSkipping: the effects of the sub-expressions of a selector without the access itself
+func (c *fctx) exprSkipping(e ast.Expr) *sk {
+	if sel, ok := e.(*ast.SelectorExpr); ok {
+		return c.expr(sel.X)
+	}
+	return c.expr(e)
 }
 
 func endsWithReturn(b *ast.BlockStmt) bool {
@@ -341,7 +477,10 @@ func (c *fctx) stmt(s ast.Stmt) *sk {
 			xs = append(xs, c.expr(r))
 		}
 		for _, l := range s.Lhs {
-			xs = append(xs, c.expr(l))
+			if s.Tok == token.DEFINE {
+				continue
+			}
+			xs = append(xs, c.lhs(l))
 		}
 		return seq(xs...)
 	case *ast.DeclStmt:
@@ -357,7 +496,7 @@ func (c *fctx) stmt(s ast.Stmt) *sk {
 		}
 		return seq(xs...)
 	case *ast.IncDecStmt:
-		return c.expr(s.X)
+		return c.lhs(s.X)
 	case *ast.SendStmt:
 		return seq(c.expr(s.Chan), c.expr(s.Value))
 	case *ast.BlockStmt:
@@ -497,10 +636,21 @@ func (c *fctx) expr(e ast.Expr) *sk {
 	ast.Inspect(e, func(n ast.Node) bool {
 		switch n := n.(type) {
 		case *ast.CallExpr:
+			if id, ok := n.Fun.(*ast.Ident); ok && id.Name == "delete" && len(n.Args) == 2 {
+				if f := c.fieldOf(n.Args[0]); f >= 0 {
+					xs = append(xs, c.expr(n.Args[1]), c.exprSkipping(n.Args[0]), &sk{k: "Use", m: "w", c: f})
+					return false
+				}
+			}
 			xs = append(xs, c.call(n))
 			return false
 		case *ast.FuncLit:
 			return false // a closure value that is not called here
+		case *ast.SelectorExpr:
+			if f := c.fieldOf(n); f >= 0 {
+				xs = append(xs, c.expr(n.X), &sk{k: "Use", m: "r", c: f})
+				return false
+			}
 		}
 		return true
 	})
@@ -738,7 +888,7 @@ func (w *world) relevant() []bool {
 			return false
 		}
 		switch s.k {
-		case "Acq", "Rel", "Wait", "SetF":
+		case "Acq", "Rel", "Wait", "SetF", "Use":
 			return true
 		case "Call":
 			return rel[s.f]
@@ -845,6 +995,176 @@ func dropBranches(s *sk) *sk {
 		return loop(dropBranches(s.a))
 	case "Unless":
 		b := dropBranches(s.a)
+		if b.k == "Skip" {
+			return skip
+		}
+		return &sk{k: "Unless", a: b}
+	}
+	return s
+}
+
+// guards: for every candidate field that is written somewhere, the lock class held (for writing) at
+// its write accesses; fields that are never written after construction need no guard. The choice is
+// only a proposal: the Coq checker verifies at every access that the guard is held in the right mode.
+// Use nodes are rewritten from field ids to guard class ids; accesses to unguarded fields are dropped.
+func (w *world) guards(entries []int) (guard map[int]int, report []string) {
+	type held struct {
+		c int
+		m string
+	}
+	type acc struct {
+		write bool
+		h     []held
+	}
+	accs := map[int][]acc{}
+	seen := map[string]bool{}
+	var walk func(s *sk, h []held, depth int) [][]held
+	key := func(h []held) string { return fmt.Sprint(h) }
+	uniq := func(xs [][]held) [][]held {
+		m := map[string]bool{}
+		var out [][]held
+		for _, x := range xs {
+			if k := key(x); !m[k] {
+				m[k] = true
+				out = append(out, x)
+			}
+		}
+		if len(out) > 8 {
+			out = out[:8]
+		}
+		return out
+	}
+	walk = func(s *sk, h []held, depth int) [][]held {
+		if s == nil {
+			return [][]held{h}
+		}
+		switch s.k {
+		case "Use":
+			accs[s.c] = append(accs[s.c], acc{s.m == "w", append([]held(nil), h...)})
+		case "Acq":
+			return [][]held{append(append([]held(nil), h...), held{s.c, s.m})}
+		case "Rel":
+			var out []held
+			done := false
+			for i := len(h) - 1; i >= 0; i-- {
+				if !done && h[i].c == s.c && h[i].m == s.m {
+					done = true
+					continue
+				}
+				out = append([]held{h[i]}, out...)
+			}
+			return [][]held{out}
+		case "Ret":
+			return nil
+		case "Seq":
+			var out [][]held
+			for _, x := range walk(s.a, h, depth) {
+				out = append(out, walk(s.b, x, depth)...)
+			}
+			return uniq(out)
+		case "Alt":
+			return uniq(append(walk(s.a, h, depth), walk(s.b, h, depth)...))
+		case "Loop", "Unless":
+			return uniq(append(walk(s.a, h, depth), h))
+		case "Call":
+			k := fmt.Sprintf("%d|%s", s.f, key(h))
+			if seen[k] || depth > 40 {
+				return [][]held{h}
+			}
+			seen[k] = true
+			walk(w.procs[s.f].body, h, depth+1)
+			return [][]held{h}
+		}
+		return [][]held{h}
+	}
+	for _, e := range entries {
+		walk(w.procs[e].body, nil, 0)
+	}
+	guard = map[int]int{}
+	for f, as := range accs {
+		nw := 0
+		score := map[int]int{}
+		for _, a := range as {
+			if a.write {
+				nw++
+			}
+			for _, x := range a.h {
+				if !a.write || x.m == "W" {
+					score[x.c]++
+				}
+			}
+		}
+		if nw == 0 {
+			continue
+		}
+		// the classes held for writing at every write (and held at all at every read), else at every
+		// write only, else the most frequent one
+		inAll := func(readsToo bool) []int {
+			var out []int
+			for c := range w.cnames {
+				ok := true
+				for _, a := range as {
+					if !a.write && !readsToo {
+						continue
+					}
+					found := false
+					for _, x := range a.h {
+						if x.c == c && (!a.write || x.m == "W") {
+							found = true
+						}
+					}
+					if !found {
+						ok = false
+					}
+				}
+				if ok {
+					out = append(out, c)
+				}
+			}
+			return out
+		}
+		best := -1
+		if cs := inAll(true); len(cs) > 0 {
+			best = cs[len(cs)-1]
+		} else if cs := inAll(false); len(cs) > 0 {
+			best = cs[len(cs)-1]
+		} else {
+			bs := -1
+			for c, n := range score {
+				if n > bs || (n == bs && c < best) {
+					best, bs = c, n
+				}
+			}
+		}
+		if best < 0 {
+			// written with no lock held at all: any guard makes the check fail, as it must
+			best = 0
+		}
+		guard[f] = best
+		report = append(report, fmt.Sprintf("%s guarded by %s (%d accesses, %d of them writes)", w.fnames[f], w.cnames[best], len(as), nw))
+	}
+	sort.Strings(report)
+	return
+}
+
+func (w *world) applyGuards(s *sk, guard map[int]int) *sk {
+	if s == nil {
+		return skip
+	}
+	switch s.k {
+	case "Use":
+		if g, ok := guard[s.c]; ok {
+			return &sk{k: "Use", m: s.m, c: g}
+		}
+		return skip
+	case "Seq":
+		return seq(w.applyGuards(s.a, guard), w.applyGuards(s.b, guard))
+	case "Alt":
+		return alt(w.applyGuards(s.a, guard), w.applyGuards(s.b, guard))
+	case "Loop":
+		return loop(w.applyGuards(s.a, guard))
+	case "Unless":
+		b := w.applyGuards(s.a, guard)
 		if b.k == "Skip" {
 			return skip
 		}
@@ -976,6 +1296,9 @@ func (w *world) show(s *sk, rank []int) string {
 		return s.k
 	case "Acq", "Rel":
 		return fmt.Sprintf("%s %s %d", s.k, s.m, rank[s.c])
+	case "Use":
+		// after guard selection c is the guard's class id
+		return fmt.Sprintf("Use %v %d", s.m == "w", rank[s.c])
 	case "Seq", "Alt":
 		return fmt.Sprintf("(%s %s %s)", s.k, paren(w.show(s.a, rank)), paren(w.show(s.b, rank)))
 	case "Loop", "Unless":
@@ -1037,6 +1360,13 @@ func main() {
 		p.body = dropBranches(w.prune(p.body, rel, false))
 		_ = i
 	}
+	guard, guardReport := w.guards(append(append([]int{}, api...), w.gos...))
+	if len(w.cnames) == 0 {
+		guard = map[int]int{}
+	}
+	for _, p := range w.procs {
+		p.body = w.applyGuards(p.body, guard)
+	}
 	rel = w.relevant()
 	rank := w.order(rel)
 	var apiRel, gosRel []int
@@ -1093,6 +1423,7 @@ func main() {
 			"lock_classes_in_rank_order": cs, "procedures": len(w.procs), "lock_relevant_procedures": nrel,
 			"api_entry_points_with_lock_operations": apiNames, "goroutine_entry_points": goNames,
 			"calls_assumed_lock_neutral": ext, "errors": w.errs, "receiver_expressions": recv,
+			"guarded_fields": guardReport,
 		})
 		return
 	}
@@ -1114,6 +1445,10 @@ func main() {
 	sort.Slice(crs, func(i, j int) bool { return crs[i].r < crs[j].r })
 	for _, c := range crs {
 		fmt.Printf("     %d = %s\n", c.r, c.n)
+	}
+	fmt.Println("   data guarded by a lock (Use nodes name the guard's class):")
+	for _, g := range guardReport {
+		fmt.Printf("     %s\n", cmt(g))
 	}
 	fmt.Println("*)")
 	fmt.Println()
